@@ -10,6 +10,7 @@
      encs w text       the code units of a text in width w                 (UtfSpec.v) *)
 From BS Require Import Base UtfSpec UtfModel UtfLemmas StreamIStream StreamSpec StreamModel
   StreamUnits StreamDetProofs StreamEsrProofs StreamLossless StreamTruncated StreamEswProofs.
+From BS Require Import StreamPropProofs.
 Local Open Scope nat_scope.
 
 (* ------------------------------------------------------------------ detection, with BOM *)
@@ -18,10 +19,7 @@ Local Open Scope nat_scope.
    BOM followed by U+0000 and the UTF-32LE BOM (no detector can tell) *)
 Theorem T_C13_detect_bom_refuted :
   ~ (forall e text, Forall scalar text -> detect (bom e ++ text_bytes e text) = Ok (e, length (bom e))).
-Proof.
-  intros H. specialize (H Utf16le [0; 0x61]%N).
-  rewrite detect_bom_refuted_witness in H. discriminate H. repeat constructor.
-Qed.
+Proof. exact T_C13_detect_bom_refuted_proof. Qed.
 Print Assumptions T_C13_detect_bom_refuted.
 
 Theorem T_C13_detect_bom_outside : forall e text, Forall scalar text -> bom_defect e text = false ->
@@ -42,10 +40,7 @@ Print Assumptions T_C13_detect_bom_bytes.
    (UTF-16: "a\0" in UTF-16LE is byte for byte "a" in UTF-32LE) *)
 Theorem T_C13_detect_nobom_refuted :
   ~ (forall e c rest, (0 < c < 128)%N -> Forall scalar rest -> detect (text_bytes e (c :: rest)) = Ok (e, 0)).
-Proof.
-  intros H. specialize (H Utf8 0x61%N [0; 0x62]%N).
-  rewrite detect_nobom_refuted_utf8 in H. discriminate H. lia. repeat constructor.
-Qed.
+Proof. exact T_C13_detect_nobom_refuted_proof. Qed.
 Print Assumptions T_C13_detect_nobom_refuted.
 
 Theorem T_C13_detect_nobom_outside : forall e c rest, (0 < c < 128)%N -> Forall scalar rest ->
@@ -80,14 +75,7 @@ Theorem T_C13_stream_lossless_refuted :
        length (with_bom b e text) < fuel ->
        exists k, esr_run K tgt pol mark fuel (stream_of (with_bom b e text) sk) =
                    RunDone (repeat ChSuccess k ++ [ChEndFile]) (encs tgt text) e).
-Proof.
-  intros H.
-  destruct (H 32 W8 Skip [] Utf8 false [0x61; 0; 0x62]%N true 100) as [k Hk]; try reflexivity; try lia.
-  - repeat constructor.
-  - right. exists 0x61%N, [0; 0x62]%N. split; [reflexivity | lia].
-  - cbn; lia.
-  - rewrite lossless_refuted_witness in Hk. discriminate Hk.
-Qed.
+Proof. exact T_C13_stream_lossless_refuted_proof. Qed.
 Print Assumptions T_C13_stream_lossless_refuted.
 
 Theorem T_C13_stream_lossless_outside : forall K tgt pol mark e b text sk fuel,
@@ -96,10 +84,7 @@ Theorem T_C13_stream_lossless_outside : forall K tgt pol mark e b text sk fuel,
   length (with_bom b e text) < fuel ->
   exists k, esr_run K tgt pol mark fuel (stream_of (with_bom b e text) sk) =
               RunDone (repeat ChSuccess k ++ [ChEndFile]) (encs tgt text) e.
-Proof.
-  intros K tgt pol mark e b text sk fuel H4 H32 Hs Hd Hn Hf.
-  exact (esr_lossless K H4 H32 tgt pol mark e b text Hs Hd Hn sk fuel Hf).
-Qed.
+Proof. exact T_C13_stream_lossless_outside_proof. Qed.
 Print Assumptions T_C13_stream_lossless_outside.
 
 (* ------------------------------------------------------------------ progress: no stream hangs the reader *)
@@ -113,10 +98,7 @@ Theorem T_C13_progress : forall K tgt pol mark data sk fuel,
   exists k c out ty,
     esr_run K tgt pol mark fuel (stream_of data sk) = RunDone (repeat ChSuccess k ++ [c]) out ty /\
     (c = ChEndFile \/ c = ChDecodeError) /\ k <= length data.
-Proof.
-  intros K tgt pol mark data sk fuel H4 H32 Hb Hf.
-  exact (esr_run_total K H4 H32 tgt pol mark data Hb sk fuel Hf).
-Qed.
+Proof. exact T_C13_progress_proof. Qed.
 Print Assumptions T_C13_progress.
 
 (* ------------------------------------------------------------------ truncated streams *)
@@ -138,18 +120,7 @@ Theorem T_C13_truncated_refuted :
        exists k, esr_run K tgt pol mark fuel
                    (stream_of ((if b then bom e else []) ++ firstn L (text_bytes e (done ++ [c]))) sk) =
                  trunc_result tgt pol mark e done k).
-Proof.
-  intros H.
-  destruct (H 32 W8 Skip [0x3F]%N Utf8 true [0x61]%N 0x20AC%N 3 true 100) as [k Hk]; try reflexivity; try lia.
-  - repeat constructor.
-  - cbn; lia.
-  - cbn; lia.
-  - assert (W : esr_run 32 W8 Skip [0x3F]%N 100
-                  (stream_of ((if true then bom Utf8 else []) ++ firstn 3 (text_bytes Utf8 ([0x61]%N ++ [0x20AC]%N))) true) =
-                RunDone [ChSuccess; ChEndFile] [0x61; 0xE2; 0x82]%N Utf8) by (vm_compute; reflexivity).
-    rewrite W in Hk. unfold trunc_result in Hk. cbn [encs flat_map enc app] in Hk.
-    injection Hk as _ Hout. vm_compute in Hout. discriminate Hout.
-Qed.
+Proof. exact T_C13_truncated_refuted_proof. Qed.
 Print Assumptions T_C13_truncated_refuted.
 
 (* every pair of different source and target widths, every scheme, BOM choice, chunk size, policy,
@@ -164,10 +135,7 @@ Theorem T_C13_truncated_outside : forall K tgt pol mark e b done c L sk fuel,
   exists k, esr_run K tgt pol mark fuel
               (stream_of ((if b then bom e else []) ++ firstn L (text_bytes e (done ++ [c]))) sk) =
             trunc_result tgt pol mark e done k.
-Proof.
-  intros K tgt pol mark e b done c L sk fuel H4 H32 Hs HL Hx Hd Hn Hf.
-  exact (esr_truncated K H4 H32 tgt pol mark e b done c L Hs HL Hx Hd Hn sk fuel Hf).
-Qed.
+Proof. exact T_C13_truncated_outside_proof. Qed.
 Print Assumptions T_C13_truncated_outside.
 
 (* NOT PROVED: the same statement for equal source and target widths 16 -> 16 and 32 -> 32 (where it
@@ -182,10 +150,7 @@ Theorem T_C13_truncated_partial_unit : forall K tgt pol mark data e s out,
   exists c s' o, esr_decode_chunk tgt pol mark e s out = Ok (c, s', o) /\
     (c = ChDecodeError \/
      (pol = Skip /\ c = ChSuccess /\ e_start s' = e_end s' /\ exists o', o = o' ++ mark)).
-Proof.
-  intros K tgt pol mark data e s out H4 H32 I He Hm.
-  exact (decode_chunk_partial_unit K H4 H32 tgt pol mark data e s out I He Hm).
-Qed.
+Proof. exact T_C13_truncated_partial_unit_proof. Qed.
 Print Assumptions T_C13_truncated_partial_unit.
 
 (* "a€" cut inside the euro sign / its code unit, BOM present *)
@@ -194,7 +159,7 @@ Example T_C13_truncated_example_utf8 :
     = RunDone [ChSuccess; ChEndFile] [0x61; 0xFFFD]%N Utf8 /\
   esr_run 32 W16 ThrowError [0xFFFD]%N 100 (stream_of (firstn 6 (with_bom true Utf8 [0x61; 0x20AC]%N)) true)
     = RunDone [ChDecodeError] [0x61]%N Utf8.
-Proof. split; vm_compute; reflexivity. Qed.
+Proof. exact T_C13_truncated_example_utf8_proof. Qed.
 Print Assumptions T_C13_truncated_example_utf8.
 
 Example T_C13_truncated_example_utf16 :
@@ -202,13 +167,13 @@ Example T_C13_truncated_example_utf16 :
     = RunDone [ChSuccess; ChEndFile] [0x61; 0x3F]%N Utf16be /\
   esr_run 32 W8 ThrowError [0x3F]%N 100 (stream_of (firstn 7 (with_bom true Utf16le [0x61; 0x1F600]%N)) true)
     = RunDone [ChDecodeError] [0x61]%N Utf16le.
-Proof. split; vm_compute; reflexivity. Qed.
+Proof. exact T_C13_truncated_example_utf16_proof. Qed.
 Print Assumptions T_C13_truncated_example_utf16.
 
 Example T_C13_truncated_example_utf32 :
   esr_run 32 W16 Skip [0xFFFD]%N 100 (stream_of (firstn 11 (with_bom true Utf32le [0x61; 0x20AC]%N)) true)
     = RunDone [ChSuccess; ChEndFile] [0x61; 0xFFFD]%N Utf32le.
-Proof. vm_compute. reflexivity. Qed.
+Proof. exact T_C13_truncated_example_utf32_proof. Qed.
 Print Assumptions T_C13_truncated_example_utf32.
 
 (* same width: U+10FFFF cut between its two UTF-16 units, to char16_t (the lone U+DBFF used to be
@@ -218,7 +183,7 @@ Example T_C13_truncated_example_samewidth :
     = RunDone [ChDecodeError] [0x61]%N Utf16le /\
   esr_run 32 W8 Skip [0x3F]%N 100 (stream_of (firstn 6 (with_bom true Utf8 [0x61; 0x20AC]%N)) true)
     = RunDone [ChSuccess; ChEndFile] [0x61; 0xE2; 0x82]%N Utf8.
-Proof. split; vm_compute; reflexivity. Qed.
+Proof. exact T_C13_truncated_example_samewidth_proof. Qed.
 Print Assumptions T_C13_truncated_example_samewidth.
 
 (* ------------------------------------------------------------------ the writer *)
@@ -254,5 +219,5 @@ Example T_C13_lossless_example :
   esr_run 32 W16 ThrowError [] 100
     (stream_of (with_bom true Utf8 (repeat 0x61%N 28 ++ [0x20AC; 0x1F600; 0xE9]%N)) true) =
   RunDone [ChSuccess; ChSuccess; ChEndFile] (repeat 0x61%N 28 ++ [0x20AC; 0xD83D; 0xDE00; 0xE9]%N) Utf8.
-Proof. vm_compute. reflexivity. Qed.
+Proof. exact T_C13_lossless_example_proof. Qed.
 Print Assumptions T_C13_lossless_example.
